@@ -336,6 +336,10 @@ type seqRun[E any] struct {
 	// sequences returned by earlier range reads/removals, with what they contained then:
 	// a returned sequence is a value of its own and must not change when the source does
 	kept []keptSeq[E]
+	// the collection the constructor was given (MakeFromSequence forms) and what it held then: it stays a
+	// collection of its own, whatever kind it is
+	source        col.Sequential[E]
+	sourceContent []E
 }
 
 type keptSeq[E any] struct {
@@ -545,12 +549,15 @@ func execSeq[E any](c seqCase, et elemType[E]) core.Result {
 			case "MakeFromArray":
 				r.list = L.MakeFromArray(init)
 			case "MakeFromSequence/array":
-				r.list = L.MakeFromSequence(A.MakeFromArray(init))
+				r.source = A.MakeFromArray(init)
+				r.list = L.MakeFromSequence(r.source)
 			case "MakeFromSequence/list":
-				r.list = L.MakeFromSequence(L.MakeFromArray(init))
+				r.source = L.MakeFromArray(init)
+				r.list = L.MakeFromSequence(r.source)
 			case "MakeFromSequence/set":
 				set := S.MakeFromArray(init)
 				r.model = set.AsArray()
+				r.source = set
 				r.list = L.MakeFromSequence(set)
 			case "Concatenate":
 				second := r.vals(c.Init2)
@@ -574,10 +581,12 @@ func execSeq[E any](c seqCase, et elemType[E]) core.Result {
 			case "MakeFromArray":
 				r.coll = A.MakeFromArray(init)
 			case "MakeFromSequence/list":
-				r.coll = A.MakeFromSequence(L.MakeFromArray(init))
+				r.source = L.MakeFromArray(init)
+				r.coll = A.MakeFromSequence(r.source)
 			case "MakeFromSequence/set":
 				set := S.MakeFromArray(init)
 				r.model = set.AsArray()
+				r.source = set
 				r.coll = A.MakeFromSequence(set)
 			}
 		}
@@ -589,6 +598,9 @@ func execSeq[E any](c seqCase, et elemType[E]) core.Result {
 	if v := r.checkState(-1, c.Ctor); v != nil {
 		r.res.Violation = v
 		return r.res
+	}
+	if r.source != nil {
+		r.sourceContent = r.source.AsArray()
 	}
 	mutated, boundary := false, false
 	for step, op := range c.Ops {
@@ -888,6 +900,26 @@ func execSeq[E any](c seqCase, et elemType[E]) core.Result {
 		}
 		if v != nil {
 			r.res.Violation = v
+			return r.res
+		}
+	}
+	if r.source != nil {
+		if now := r.source.AsArray(); !r.sameSlice(now, r.sourceContent) {
+			r.res.Violation = core.Violate("C01/ctor/shares-source", "the history on a %s made by %s changed the collection it was made from: %v -> %v", c.Coll, c.Ctor, r.sourceContent, now)
+			return r.res
+		}
+		// changing the source in place now does not reach the collection
+		before := r.coll.AsArray()
+		if src, ok := r.source.(interface {
+			col.Sortable[E]
+			col.Updatable[E]
+		}); ok && r.source.GetSize() > 0 {
+			src.ReverseValues()
+			src.SetValue(1, r.vals([]int{0})[0])
+			src.SetValue(-1, r.vals([]int{1})[0])
+		}
+		if now := r.coll.AsArray(); !r.sameSlice(now, before) {
+			r.res.Violation = core.Violate("C01/ctor/shares-source", "changing the collection given to %s in place changed the %s made from it: %v -> %v", c.Ctor, c.Coll, before, now)
 			return r.res
 		}
 	}
